@@ -396,44 +396,35 @@ func adapterNormalisation(c *Ctx, m *Module, a adapterInfo) (func(int64) int64, 
 	if strip(ret) == ssa.Value(lk) {
 		return func(r int64) int64 { return r }, "identity", true
 	}
-	phi, ok := ret.(*ssa.Phi)
-	if !ok || len(phi.Edges) != 2 {
-		return nil, "", false
+	// the normalisation is read as a function by evaluating the returned value with the looked-up round
+	// bound to each concrete value (an if in place, a helper function, a constant offset, …)
+	eval := func(r int64) (int64, bool) {
+		k, ok := evalUnder(ret, map[ssa.Value]constant.Value{lk: constant.MakeInt64(r)}, 0)
+		if !ok || k.Kind() != constant.Int {
+			return 0, false
+		}
+		v, ok := constant.Int64Val(k)
+		return v, ok
 	}
-	var sub *ssa.BinOp
-	direct := false
-	for _, e := range phi.Edges {
-		if strip(e) == ssa.Value(lk) {
-			direct = true
-		} else if b, ok := e.(*ssa.BinOp); ok && b.Op == token.SUB && strip(b.X) == ssa.Value(lk) {
-			sub = b
+	desc := ""
+	for r := int64(0); r <= 16; r++ {
+		v, ok := eval(r)
+		if !ok {
+			return nil, "", false
+		}
+		if v != r && desc == "" {
+			desc = fmt.Sprintf("round≥%d ↦ round%+d", r, v-r)
 		}
 	}
-	if !direct || sub == nil {
-		return nil, "", false
-	}
-	d, ok := constInt(sub.Y)
-	if !ok {
-		return nil, "", false
-	}
-	// guard of the subtraction
-	var k int64 = -1
-	for _, f := range FactsAt(sub) {
-		if f.Op == token.GTR && strip(f.X) == ssa.Value(lk) {
-			if kk, ok := constInt(f.Y); ok {
-				k = kk
-			}
-		}
-	}
-	if k < 0 {
-		return nil, "", false
+	if desc == "" {
+		desc = "identity"
 	}
 	return func(r int64) int64 {
-		if r > k {
-			return r - d
+		if v, ok := eval(r); ok {
+			return v
 		}
 		return r
-	}, fmt.Sprintf("round>%d ? round-%d : round", k, d), true
+	}, desc, true
 }
 
 func ruleAdapterDistinctRounds(c *Ctx, rule string, a adapterInfo, t *adapterTables) {
@@ -483,13 +474,13 @@ func checkC19(c *Ctx) {
 		m := c.Mod(a.mod)
 		short := a.curve
 		T1, T2, T3, G1, G2, G3, W1 := "C19.T1", "C19.T2", "C19.T3", "C19.G1", "C19.G2", "C19.G3", "C19.W1"
-		c.Rule(T1, "keys(msgURL2Round) = message types registered in the adapter's tss-lib version", 20)
-		c.Rule(T2, "broadcastMessages = types constructed with IsBroadcast:true", 20)
-		c.Rule(T3, "distinct effective rounds ≤127 per phase among broadcast types; class/round from the received type URL", 16)
-		c.Rule(G1, "p.in <- msg dominated by claimed == from, claimed ← msg.GetFrom()", 2)
-		c.Rule(G2, "Sign returns a signature only under bytes.Equal(sigOut.M, f(msgHash))", 2)
-		c.Rule(G3, "the seat a message is attributed to is that of the party whose key equals the transport sender", 6)
-		c.Rule(W1, "tables are never written after initialisation", 2)
+		c.Rule(T1, "keys(msgURL2Round) = message types registered in the adapter's tss-lib version", 10)
+		c.Rule(T2, "broadcastMessages = types constructed with IsBroadcast:true", 10)
+		c.Rule(T3, "distinct effective rounds ≤127 per phase among broadcast types; class/round from the received type URL", 8)
+		c.Rule(G1, "p.in <- msg dominated by claimed == from, claimed ← msg.GetFrom()", 1)
+		c.Rule(G2, "Sign returns a signature only under bytes.Equal(sigOut.M, f(msgHash))", 1)
+		c.Rule(G3, "the seat a message is attributed to is that of the party whose key equals the transport sender", 3)
+		c.Rule(W1, "tables are never written after initialisation", 1)
 		var urls []string
 		for u := range t.expected {
 			urls = append(urls, u)
@@ -744,6 +735,12 @@ func ruleAdapterSeatBinding(c *Ctx, rule string, a adapterInfo) {
 	from := fn.Params[2]
 	sl := NewSlicer(m, a.pkg)
 	var locate *ssa.Function
+	type seatSite struct {
+		val ssa.Value
+		id  ssa.Value
+		at  ssa.Instruction
+	}
+	var inPlace []seatSite
 	nParse := 0
 	for _, in := range instrsOf(fn) {
 		cl, ok := in.(*ssa.Call)
@@ -788,6 +785,11 @@ func ruleAdapterSeatBinding(c *Ctx, rule string, a adapterInfo) {
 			}
 			lc, isCall := strip(st.Val).(*ssa.Call)
 			if !isCall {
+				// the lookup written out in place: a variable that leaves −1 only for an equal key
+				if instrDominates(st, cl) {
+					inPlace = append(inPlace, seatSite{val: st.Val, id: id, at: st})
+					okIdx = true
+				}
 				continue
 			}
 			cal := staticCallee(&lc.Call)
@@ -805,6 +807,103 @@ func ruleAdapterSeatBinding(c *Ctx, rule string, a adapterInfo) {
 	if nParse == 0 {
 		c.Bad(rule, FuncName(fn), "ParseWireMessage call", "-", "OnMsg does not parse the received bytes with tss.ParseWireMessage")
 		return
+	}
+	// equalKeyFact: the facts establish key(IDs()[seat]) == key(idv)
+	equalKeyFact := func(facts []Fact, seat ssa.Value, idv ssa.Value) bool {
+		keyRoot := func(v ssa.Value) ssa.Value {
+			var root ssa.Value
+			chainTo(strip(v), func(x ssa.Value) bool {
+				x = strip(x)
+				if x == strip(idv) {
+					root = x
+					return true
+				}
+				if ld, ok := x.(*ssa.UnOp); ok && ld.Op == token.MUL {
+					if ia, ok := ld.X.(*ssa.IndexAddr); ok {
+						root = ia
+						return true
+					}
+				}
+				return false
+			})
+			return root
+		}
+		return hasFact(facts, func(f Fact) bool {
+			var x, y ssa.Value
+			switch {
+			case f.Op == 0 && f.True:
+				cl, ok := f.Bool.(*ssa.Call)
+				if !ok || !isCallTo(&cl.Call, "bytes", "Equal") {
+					return false
+				}
+				x, y = cl.Call.Args[0], cl.Call.Args[1]
+			case f.Op == token.EQL && isZero(f.Y):
+				cl, ok := strip(f.X).(*ssa.Call)
+				if !ok {
+					return false
+				}
+				o := calleeObj(&cl.Call)
+				if o == nil || o.Name() != "Cmp" || len(cl.Call.Args) != 2 {
+					return false
+				}
+				x, y = cl.Call.Args[0], cl.Call.Args[1]
+			default:
+				return false
+			}
+			for _, pr := range [][2]ssa.Value{{x, y}, {y, x}} {
+				ia, isIA := keyRoot(pr[0]).(*ssa.IndexAddr)
+				if !isIA || keyRoot(pr[1]) != strip(idv) {
+					continue
+				}
+				if sameValue(ia.Index, seat) || strip(ia.Index) == strip(seat) {
+					return true
+				}
+			}
+			return false
+		})
+	}
+	// in place: every value the seat variable can take other than a negative constant enters it on an
+	// edge that is taken only after the equality test succeeded
+	for _, sp := range inPlace {
+		ok := true
+		nNonNeg := 0
+		var walk func(v ssa.Value, d int)
+		seenPhi := map[*ssa.Phi]bool{}
+		walk = func(v ssa.Value, d int) {
+			if k, isK := constInt(v); isK && k < 0 {
+				return
+			}
+			if p, isPhi := v.(*ssa.Phi); isPhi && d < 4 {
+				if seenPhi[p] {
+					return
+				}
+				seenPhi[p] = true
+				for i, e := range p.Edges {
+					if e == ssa.Value(p) {
+						continue
+					}
+					if _, inner := e.(*ssa.Phi); inner {
+						walk(e, d+1)
+						continue
+					}
+					if k, isK := constInt(e); isK && k < 0 {
+						continue
+					}
+					nNonNeg++
+					pred := p.Block().Preds[i]
+					if !equalKeyFact(FactsAt(pred.Instrs[len(pred.Instrs)-1]), e, sp.id) {
+						ok = false
+					}
+				}
+				return
+			}
+			nNonNeg++
+			ok = false // a computed seat that is not selected by comparison
+		}
+		walk(sp.val, 0)
+		c.Check(ok && nNonNeg > 0, rule, FuncName(fn), "seat assigned only for an equal key", m.Pos(sp.at.Pos()),
+			"every non-negative value of the seat enters it behind key(IDs()[i]) == key(id)",
+			"the seat written into the sender identity can be that of a party whose key differs from the sender's: a message received from a node outside the session (or from another member) is attributed to that party's seat, and tss-lib processes it as that party's message")
 	}
 	if locate == nil {
 		return
